@@ -568,3 +568,20 @@ Proof.
   intros L N. destruct ed as [|d [|d2 ed']]; simpl in L; try lia. simpl.
   destruct (length items =? S (S (length ed'))) eqn:E; [apply Nat.eqb_eq in E; simpl in N; congruence|reflexivity].
 Qed.
+
+(* linking operands: accepted iff every (sender, receiver) pair passes the node-to-node check *)
+Lemma link_check_spec (ss rs : list node) :
+  link_check ss rs = ROk tt <-> Forall (fun s => Forall (fun r => link_1to1 s r = ROk tt) rs) ss.
+Proof.
+  induction ss as [|s ss IH]; simpl.
+  - split; intro; [constructor|reflexivity].
+  - destruct (forallb _ rs) eqn:E.
+    + rewrite IH. split; intro H.
+      * constructor; [|exact H]. apply Forall_forall. intros r Hr.
+        rewrite forallb_forall in E. specialize (E r Hr). destruct (link_1to1 s r) as [[]|]; [reflexivity|discriminate].
+      * inversion H; assumption.
+    + split; intro H; [discriminate|]. inversion H as [|? ? Hs Hss]; subst. exfalso.
+      assert (forallb (fun r => match link_1to1 s r with ROk _ => true | RErr _ => false end) rs = true).
+      { apply forallb_forall. intros r Hr. rewrite Forall_forall in Hs. rewrite (Hs r Hr). reflexivity. }
+      congruence.
+Qed.
